@@ -19,6 +19,7 @@ type Ctx struct {
 	drainMemo  map[*ssa.Function][]int
 	accBind    map[*ssa.Parameter]ssa.Value
 	mutTypes   map[*types.Named]bool
+	fwdMemo    map[*ssa.Function]*fwdInfo
 }
 
 // RuleFunc runs all rules of one property.
